@@ -48,15 +48,20 @@ def _sig_bag(sig):
         return None
     t = re.sub(r"for<[^>]*> ", "", sig)
     t = re.sub(r"'[a-z_0-9]+ ?", "", t)
+    # a parameter borrowed as the owning type or as its view is the same parameter: &String / &str, &PathBuf / &Path, &Vec<T> / &[T]
+    t = t.replace("&alloc::string::String", "&str").replace("&std::path::PathBuf", "&std::path::Path")
+    t = re.sub(r"&alloc::vec::Vec<([^<>]*(?:<[^<>]*(?:<[^<>]*>[^<>]*)*>[^<>]*)*)>", r"&[\1]", t)
     m = re.match(r"(?:unsafe )?fn\((.*)\)(?: -> (.*))?$", t)
     if not m:
         return t
     params, depth, cur = [], 0, ""
+    prev = ""
     for ch in m.group(1):
         if ch in "<([":
             depth += 1
-        elif ch in ">)]":
+        elif ch in ">)]" and not (ch == ">" and prev == "-"):      # the `->` of a Fn(..) -> T bound closes nothing
             depth -= 1
+        prev = ch
         if ch == "," and depth == 0:
             params.append(cur.strip())
             cur = ""
@@ -78,11 +83,13 @@ def param_types(sig):
     if not m:
         return []
     params, depth, cur = [], 0, ""
+    prev = ""
     for ch in m.group(1):
         if ch in "<([":
             depth += 1
-        elif ch in ">)]":
+        elif ch in ">)]" and not (ch == ">" and prev == "-"):      # the `->` of a Fn(..) -> T bound closes nothing
             depth -= 1
+        prev = ch
         if ch == "," and depth == 0:
             params.append(cur.strip())
             cur = ""
@@ -128,6 +135,24 @@ def resolve_renames(prog):
                 cands = [best]
         if len(cands) == 1:
             out[name] = cands[0]
+    # elimination: siblings of one signature renamed together, all but one recognised by their names - the last missing
+    # function is the last new function of that signature
+    changed = True
+    while changed:
+        changed = False
+        for name in sorted(known):
+            if name in prog.fns or "{closure" in name or name in out:
+                continue
+            sig = known_sig(name)
+            if sig is None:
+                continue
+            par = lambda q: q.rsplit("::", 1)[0] if "::" in q else ""
+            same = lambda s_: s_ == sig or _sig_bag(s_) == _sig_bag(sig)
+            cands = [n for n in new if par(n) == par(name) and same(prog.fns[n].get("sig")) and n not in out.values()]
+            rivals = [o for o in known if o != name and o not in prog.fns and o not in out and par(o) == par(name) and "{closure" not in o and same(known_sig(o))]
+            if len(cands) == 1 and not rivals:
+                out[name] = cands[0]
+                changed = True
     for old_, new_ in out.items():
         prog.fns[old_] = prog.fns[new_]
         for c in [n for n in prog.fns if n.startswith(new_ + "::{closure")]:
